@@ -22,10 +22,10 @@ LEVEL_TEXT = (
 )
 LEVEL_NOTE = (
     "Edge uniqueness is decided through the shape of the enumeration (dictionary memo keyed by the sorted vertex "
-    "pair) and segment extraction through the provenance of the three arrays handed to Grid.  Out of reach "
-    "statically: the neighbour tables built from data-dependent sparse-matrix products and sorted fans "
-    "(_compute_vertex_neighbors, _compute_edge_neighbors, enumerate_vertex_adjacent_elements) as values for arbitrary "
-    "triangle soups; floating-point rounding of the geometry."
+    "pair), segment extraction through the provenance of the three arrays handed to Grid, and the vertex / element / "
+    "edge neighbour tables through the incidence structures they are read from.  Out of reach statically: the "
+    "sorted vertex fans of enumerate_vertex_adjacent_elements (data-dependent search loops) and floating-point "
+    "rounding of the geometry."
 )
 EXPLANATION = ("pattern tables extracted from Grid.refine, _create_barycentric_connectivity_array, union, _find_*_adjacency, _element_filter, _compute_boundary_information and the "
                "edge-length copies; _compute_geometric_quantities interpreted on per-element symbolic rows (sa/geomq.py)")
@@ -132,6 +132,7 @@ def run(ctx):
     # (g) edge enumeration memo, segment extraction
     edge_enumeration(ctx)
     segments_grid(ctx)
+    neighbour_tables(ctx)
 
 
 def _single(lst, what):
@@ -530,3 +531,62 @@ def segments_grid(ctx):
                 why = "mask = (domain index in segments) over all elements: %s (all-False start: %s); old->new vertex map arange over the used vertices: %s; Grid(vertices[:, used], map[elements[:, mask]] in the same row order, domain_indices[mask]): %s" % (
                     mask_ok, mask_init, map_ok, got == want)
     r.check(ok, "grid_from_segments", GRID, fn.name, fn.lineno, "segment extraction", why)
+
+
+def neighbour_tables(ctx):
+    """Vertex / element / edge neighbour tables are read off the incidence structures they are documented to mirror."""
+    m = ctx.repo.mod(GRID)
+    r = ctx.rule("NEIGHBOUR-TABLES", "vertex->element incidence pairs position 3e+j of ravel(elements, 'F') with element e; vertex / element neighbours are the CSR rows of that matrix resp. of E^T E; edge neighbours list every element once per edge it carries", 5)
+    # incidence matrix: rows = vertex numbers in F order (index 3e+j -> elements[j, e]), columns = repeat(arange(E), 3) (index 3e+j -> e)
+    f = m.fn("get_element_to_vertex_matrix")
+    d = roles.Defs(f)
+    pa = arg_names(f)
+    rets = [s for s in roles.stores(f.body, d, lv=False) if s.op == "return"]
+    ln = f.body[-1].lineno
+    ex = lambda src, **kw: roles.expect(src, d, ln, lv=False, V=pa[0], E=pa[1], **kw)
+    rows_f, cols_f = "_np.ravel(E, order='F')", "_np.repeat(_np.arange(E.shape[1]), 3)"
+    rows_c, cols_c = "_np.ravel(E)", "_np.tile(_np.arange(E.shape[1]), 3)"
+    want = {ex("csr_matrix((_np.ones(len(%s)), (%s, %s)), shape=(V.shape[1], E.shape[1]))" % (rw, rw, cl)) for rw, cl in ((rows_f, cols_f), (rows_c, cols_c))}
+    r.check(len(rets) == 1 and rets[0].value in want, "get_element_to_vertex_matrix", GRID, f.name, f.lineno, "vertex-element incidence", "incidence matrix is `%s`" % (rets[0].value[:200] if rets else None))
+    f2 = m.fn("get_element_to_element_matrix")
+    d2 = roles.Defs(f2)
+    p2 = arg_names(f2)
+    r2 = [s for s in roles.stores(f2.body, d2, lv=False) if s.op == "return"]
+    inc = "get_element_to_vertex_matrix(%s,%s)" % (p2[0], p2[1])
+    r.check(len(r2) == 1 and r2[0].value == "%s.T.dot(%s)" % (inc, inc), "get_element_to_element_matrix", GRID, f2.name, f2.lineno, "element-element vertex counts", "element-to-element matrix is `%s`, expected A^T A of the incidence matrix" % (r2[0].value[:120] if r2 else None))
+    # vertex and element neighbours: CSR rows
+    f3 = m.fn("Grid._compute_vertex_neighbors")
+    S3 = {s.target: s.value for s in roles.stores(f3.body, roles.Defs(f3), lv=False) if s.op == "="}
+    r.check(S3.get("self._vertex_neighbors") == "IndexList(self.element_to_vertex_matrix.indices,self.element_to_vertex_matrix.indptr)", "vertex neighbours", GRID, f3.name, f3.lineno, "vertex neighbours",
+            "vertex neighbours are `%s`, expected the CSR rows (indices, indptr) of the vertex-element incidence matrix" % S3.get("self._vertex_neighbors"))
+    holder = [fn_ for qn, fn_ in m.functions.items() if qn.startswith("Grid.") and any(isinstance(n, ast.Attribute) and n.attr == "_element_neighbors" and isinstance(n.ctx, ast.Store) for n in ast.walk(fn_)) and fn_.name != "__init__"]
+    ok4, why4 = False, "assignment of self._element_neighbors not found"
+    if len(holder) == 1:
+        dh = roles.Defs(holder[0])
+        Sh = {s.target: s.value for s in roles.stores(holder[0].body, dh, lv=False) if s.op == "="}
+        e2e = "get_element_to_element_matrix(self._vertices,self._elements)"
+        ok4 = Sh.get("self._element_neighbors") == "IndexList(%s.indices,%s.indptr)" % (e2e, e2e) and Sh.get("self._element_to_element_matrix") == e2e \
+            and Sh.get("self._element_to_vertex_matrix") == "get_element_to_vertex_matrix(self._vertices,self._elements)"
+        why4 = "element neighbours `%s`" % Sh.get("self._element_neighbors")
+    r.check(ok4, "element neighbours", GRID, holder[0].name if holder else "-", holder[0].lineno if holder else 0, "element neighbours", why4)
+    # edge neighbours
+    f5 = m.fn("Grid._compute_edge_neighbors")
+    d5 = roles.Defs(f5)
+    S5 = roles.stores(f5.body, d5, lv=False)
+    apps = [s for s in S5 if s.op == "call" and isinstance(s.vnode.func, ast.Attribute) and s.vnode.func.attr == "append"]
+    ok5, why5 = False, "append structure not recognised"
+    if len(apps) == 1 and len(apps[0].loops) == 2 and not apps[0].guards:
+        lE, lL = apps[0].loops
+        if isinstance(lE.target, ast.Name) and isinstance(lL.target, ast.Name):
+            Ei, Li = lE.target.id, lL.target.id
+            base = apps[0].vnode.func.value
+            lst = base.value.id if isinstance(base, ast.Subscript) and isinstance(base.value, ast.Name) else None
+            full = roles.canon(lE.iter, d5) == "range(self.number_of_elements)" and roles.canon(lL.iter, d5) == "range(3)"
+            okc = lst is not None and apps[0].value == roles.expect("X[self.element_edges[L, I]].append(I)", d5, apps[0].node.lineno, lv=False, X=lst, L=Li, I=Ei)
+            alloc = d5.alloc(lst, apps[0].node.lineno) if lst else None
+            oka = alloc is not None and alloc[0] == "expr" and roles.canon(alloc[1], d5).replace(" ", "") == roles.expect("[[] for _ in range(self.number_of_edges)]", d5, apps[0].node.lineno, lv=False)
+            pub = [s for s in S5 if s.target == "self._edge_neighbors"]
+            okp = len(pub) == 1 and pub[0].value == roles.expect("[tuple(x) for x in X]", d5, pub[0].node.lineno, lv=False, X=lst) and pub[0].node.lineno > lE.lineno
+            ok5 = full and okc and oka and okp
+            why5 = "all (element, local edge): %s; element appended to the list of its edge: %s; one empty list per edge: %s; published as tuples: %s" % (full, okc, oka, okp)
+    r.check(ok5, "edge neighbours", GRID, f5.name, f5.lineno, "edge neighbours", why5)
